@@ -11,6 +11,7 @@ import (
 
 	"github.com/blugelabs/bluge"
 	"github.com/blugelabs/bluge/numeric"
+	"github.com/blugelabs/bluge/numeric/geo"
 	"github.com/blugelabs/bluge/search/searcher"
 
 	"verif/harness/cq"
@@ -97,7 +98,6 @@ func cmpInt(a, b int) int {
 	return 0
 }
 
-
 const enumBudget = 70000
 
 // enumerateBudget runs termRange.Enumerate on one range, aborting (through a panic
@@ -136,6 +136,49 @@ func blowupIsCarry(start, end []byte) bool {
 	}
 	return false
 }
+
+// rangeWouldBlowUp mirrors the int64 bounds NewNumericRangeSearcher derives from its float end
+// points and reports whether the term enumeration of one of the split ranges exceeds the
+// candidate budget (known finding D8), with the finding key for that range.
+func rangeWouldBlowUp(lo, hi float64, il, ih bool) (bool, string) {
+	minI, maxI := int64(math.MinInt64), int64(math.MaxInt64)
+	if !math.IsInf(lo, -1) {
+		minI = numeric.Float64ToInt64(lo)
+	}
+	if !math.IsInf(hi, 1) {
+		maxI = numeric.Float64ToInt64(hi)
+	}
+	if !il && minI != math.MaxInt64 {
+		minI++
+	}
+	if !ih && maxI != math.MinInt64 {
+		maxI--
+	}
+	for _, tr := range searcher.VerifSplitInt64Range(minI, maxI, 4) {
+		if _, blown := enumerateBudget(tr[0], tr[1], func([]byte) bool { return false }); blown {
+			key := "enumerate-runaway"
+			if blowupIsCarry(tr[0], tr[1]) {
+				key = "enumerate-blowup-carry"
+			}
+			return true, key
+		}
+	}
+	return false, ""
+}
+
+// i2fBits is Int64ToFloat64 on bit patterns, in integer arithmetic.
+func i2fBits(i int64) uint64 {
+	if i < 0 {
+		i ^= 0x7fffffffffffffff
+	}
+	return uint64(i)
+}
+
+// the two instants (ns) whose Int64ToFloat64 image is -Inf / +Inf
+const (
+	nanosNegInfAlias = int64(-9218868437227405313)
+	nanosPosInfAlias = int64(9218868437227405312)
+)
 
 func runNumeric(o Opts) error {
 	rng := rand.New(rand.NewSource(o.Seed))
@@ -316,6 +359,11 @@ func runNumeric(o Opts) error {
 		}
 		toks := tokensOf(v)
 		w.Add(fmt.Sprintf("CTokens %s %s", cq.Z(v), cq.BytesList(toks)), "tokens", true, map[string]interface{}{"v": v})
+		if i%9 == 0 || o.Thorough() {
+			df := bluge.NewDateTimeField("d", time.Unix(0, v))
+			df.Analyze(0)
+			w.Add(fmt.Sprintf("CTokensKind 0 %s %s", cq.Z(v), cq.BytesList(sortedTerms(df))), "tokens-datetime", true, map[string]interface{}{"v": v})
+		}
 	}
 
 	// ---- splitInt64Range cases + exactness oracle
@@ -428,6 +476,12 @@ func runNumeric(o Opts) error {
 	if err := numericE2E(o, rng, w, floats); err != nil {
 		return err
 	}
+	// ---- end to end: DateRange queries over DateTime fields (int64 nanoseconds)
+	if err := dateE2E(o, rng, w, ints); err != nil {
+		return err
+	}
+	// ---- geo point fields: Morton hash through the prefix coding at geoPrecisionStep
+	geoCases(o, rng, w)
 	// interleave
 	for i := 0; i < 80; i++ {
 		a, b := uint64(rng.Uint32()), uint64(rng.Uint32())
@@ -517,38 +571,12 @@ func numericE2E(o Opts, rng *rand.Rand, w *cq.Writer, floats []float64) error {
 			lo, hi := pick(), pick()
 			il, ih := rng.Intn(2) == 0, rng.Intn(2) == 0
 			// pre-check: would the term enumeration of this query blow up (known finding D8)?
-			{
-				minI, maxI := int64(math.MinInt64), int64(math.MaxInt64)
-				if !math.IsInf(lo, -1) {
-					minI = numeric.Float64ToInt64(lo)
-				}
-				if !math.IsInf(hi, 1) {
-					maxI = numeric.Float64ToInt64(hi)
-				}
-				if !il && minI != math.MaxInt64 {
-					minI++
-				}
-				if !ih && maxI != math.MinInt64 {
-					maxI--
-				}
-				skip := false
-				for _, tr := range searcher.VerifSplitInt64Range(minI, maxI, 4) {
-					if _, blown := enumerateBudget(tr[0], tr[1], func([]byte) bool { return false }); blown {
-						key := "enumerate-runaway"
-						if blowupIsCarry(tr[0], tr[1]) {
-							key = "enumerate-blowup-carry"
-						}
-						w.OracleFail(key, "numeric range query would enumerate a practically unbounded number of candidate terms",
-							map[string]interface{}{"lo": fmt.Sprintf("%#x", math.Float64bits(lo)), "hi": fmt.Sprintf("%#x", math.Float64bits(hi)), "il": il, "ih": ih})
-						skip = true
-						break
-					}
-				}
-				w.OracleEval(1)
-				if skip {
-					w.Count("rangeq_skipped_blowup", 1)
-					continue
-				}
+			w.OracleEval(1)
+			if blown, key := rangeWouldBlowUp(lo, hi, il, ih); blown {
+				w.OracleFail(key, "numeric range query would enumerate a practically unbounded number of candidate terms",
+					map[string]interface{}{"lo": fmt.Sprintf("%#x", math.Float64bits(lo)), "hi": fmt.Sprintf("%#x", math.Float64bits(hi)), "il": il, "ih": ih})
+				w.Count("rangeq_skipped_blowup", 1)
+				continue
 			}
 			qq := bluge.NewNumericRangeInclusiveQuery(lo, hi, il, ih).SetField("n")
 			got := make([]bool, n)
@@ -618,6 +646,244 @@ func numericE2E(o Opts, rng *rand.Rand, w *cq.Writer, floats []float64) error {
 			}
 			w.Add(fmt.Sprintf("CRangeQ %s %s %s %s %s %s", cq.U(math.Float64bits(lo)), cq.U(math.Float64bits(hi)), cq.B(il), cq.B(ih), cq.U64List(bits), cq.List(obs)),
 				"rangeq", nm > 0 && nm < n, map[string]interface{}{"lo": lo, "hi": hi, "il": il, "ih": ih, "matched": nm, "docs": n})
+		}
+		rd.Close()
+		wr.Close()
+	}
+	return nil
+}
+
+func sortedTerms(f *bluge.TermField) [][]byte {
+	var out [][]byte
+	for _, tf := range f.AnalyzedTokenFrequencies() {
+		out = append(out, append([]byte{}, tf.TermVal...))
+	}
+	sort.Slice(out, func(i, j int) bool { return bytes.Compare(out[i], out[j]) < 0 })
+	return out
+}
+
+// geoCases: GeoPointField terms = prefix codes of the Morton hash at shifts 0, 9, ..., 63;
+// oracle: the shift-0 term decodes to the hash, the two halves de-interleave to the scaled
+// coordinates, and the shift-s terms of two points order like the truncated sortable hashes.
+func geoCases(o Opts, rng *rand.Rand, w *cq.Writer) {
+	type pt struct{ lon, lat float64 }
+	pts := []pt{{0, 0}, {-180, -90}, {180, 90}, {-180, 90}, {180, -90}, {179.99999999, 89.99999999}, {-0.0000001, 0.0000001},
+		{2.3522, 48.8566}, {-74.006, 40.7128}, {151.2093, -33.8688}, {90, 45}, {-90, -45}, {0.000001, -0.000001}}
+	n := 30
+	if o.Thorough() {
+		n = 400
+	}
+	for i := 0; i < n; i++ {
+		pts = append(pts, pt{rng.Float64()*360 - 180, rng.Float64()*180 - 90})
+	}
+	hashes := make([]uint64, len(pts))
+	for i, p := range pts {
+		h := geo.MortonHash(p.lon, p.lat)
+		hashes[i] = h
+		f := bluge.NewGeoPointField("g", p.lon, p.lat)
+		f.Analyze(0)
+		toks := sortedTerms(f)
+		w.Add(fmt.Sprintf("CTokensKind 1 %s %s", cq.Z(int64(h)), cq.BytesList(toks)), "tokens-geo", true,
+			map[string]interface{}{"lon": p.lon, "lat": p.lat, "hash": fmt.Sprintf("%#x", h)})
+		a, b := numeric.Deinterleave(h), numeric.Deinterleave(h>>1)
+		w.Add(fmt.Sprintf("CInterleave %s %s %s %s %s", cq.U(a), cq.U(b), cq.U(numeric.Interleave(a, b)), cq.U(a), cq.U(b)),
+			"interleave-geo", true, map[string]interface{}{"a": a, "b": b})
+		w.OracleEval(2)
+		if numeric.Interleave(a, b) != h || a >= 1<<32 || b >= 1<<32 {
+			w.OracleFail("geo-interleave", "Morton hash is not the interleaving of its two de-interleaved 32-bit halves", []float64{p.lon, p.lat})
+		}
+		dec, err := numeric.PrefixCoded(f.Value()).Int64()
+		if err != nil || uint64(dec) != h {
+			w.OracleFail("geo-roundtrip", "shift-0 term of a geo point does not decode to its Morton hash", []float64{p.lon, p.lat})
+		}
+		if len(toks) != 8 {
+			w.OracleFail("geo-tokens", fmt.Sprintf("expected 8 terms (shifts 0,9,..,63), got %d", len(toks)), []float64{p.lon, p.lat})
+		}
+	}
+	for s := uint(0); s < 64; s += 9 {
+		encs := make([][]byte, len(hashes))
+		for i, h := range hashes {
+			encs[i] = numeric.MustNewPrefixCodedInt64(int64(h), s)
+		}
+		for i := range hashes {
+			ui := (hashes[i] ^ 0x8000000000000000) >> s
+			for j := range hashes {
+				uj := (hashes[j] ^ 0x8000000000000000) >> s
+				want := 0
+				if ui < uj {
+					want = -1
+				} else if ui > uj {
+					want = 1
+				}
+				w.OracleEval(1)
+				if bytes.Compare(encs[i], encs[j]) != want || len(encs[i]) != len(encs[j]) {
+					w.OracleFail("prefix-order", fmt.Sprintf("geo hashes, shift %d", s), []uint64{hashes[i], hashes[j]})
+				}
+			}
+		}
+	}
+}
+
+// dateE2E: DateRange queries over DateTime fields; values and end points are int64 nanoseconds.
+func dateE2E(o Opts, rng *rand.Rand, w *cq.Writer, ints []int64) error {
+	rounds := 2
+	if o.Thorough() {
+		rounds = 20
+	}
+	hot := []int64{math.MinInt64, math.MinInt64 + 1, -1, 0, 1, math.MaxInt64 - 1, math.MaxInt64,
+		nanosNegInfAlias - 1, nanosNegInfAlias, nanosNegInfAlias + 1, nanosPosInfAlias - 1, nanosPosInfAlias, nanosPosInfAlias + 1,
+		1577836800000000000, 1577836800000000001, 1577836800000000015, 1577836800000000016, 1609459200000000000,
+		15, 16, 17, 255, 256, -16, -17}
+	for r := 0; r < rounds; r++ {
+		n := 14 + rng.Intn(9)
+		vals := make([]int64, n)
+		for i := range vals {
+			switch {
+			case i < 9:
+				vals[i] = hot[rng.Intn(len(hot))]
+			case rng.Intn(2) == 0:
+				vals[i] = ints[rng.Intn(len(ints))]
+			default:
+				vals[i] = 1577836800000000000 + int64(rng.Intn(4096)) - 2048
+			}
+		}
+		wr, err := bluge.OpenWriter(bluge.InMemoryOnlyConfig())
+		if err != nil {
+			return err
+		}
+		b := bluge.NewBatch()
+		for i, v := range vals {
+			b.Insert(bluge.NewDocument(fmt.Sprintf("%d", i)).AddField(bluge.NewDateTimeField("d", time.Unix(0, v))))
+			if i == n/2 {
+				if err := wr.Batch(b); err != nil {
+					return err
+				}
+				b = bluge.NewBatch()
+			}
+		}
+		if err := wr.Batch(b); err != nil {
+			return err
+		}
+		rd, err := wr.Reader()
+		if err != nil {
+			return err
+		}
+		nq := 500
+		emitEvery := 12
+		for q := 0; q < nq; q++ {
+			// an end point: open (zero time), or an instant
+			pick := func() (int64, bool) {
+				switch rng.Intn(7) {
+				case 0:
+					return 0, true
+				case 1, 2:
+					return hot[rng.Intn(len(hot))], false
+				case 3:
+					return vals[rng.Intn(len(vals))] + int64(rng.Intn(3)) - 1, false
+				default:
+					return vals[rng.Intn(len(vals))], false
+				}
+			}
+			a, aOpen := pick()
+			bb, bOpen := pick()
+			il, ih := rng.Intn(2) == 0, rng.Intn(2) == 0
+			var st, en time.Time
+			lo, hi := math.Inf(-1), math.Inf(1)
+			if !aOpen {
+				st = time.Unix(0, a)
+				lo = numeric.Int64ToFloat64(a)
+			}
+			if !bOpen {
+				en = time.Unix(0, bb)
+				hi = numeric.Int64ToFloat64(bb)
+			}
+			if aOpen && bOpen {
+				continue // Validate() rejects a range with no end point
+			}
+			qdesc := map[string]interface{}{"start_ns": a, "start_open": aOpen, "end_ns": bb, "end_open": bOpen, "il": il, "ih": ih}
+			w.OracleEval(1)
+			if blown, key := rangeWouldBlowUp(lo, hi, il, ih); blown {
+				w.OracleFail(key, "date range query would enumerate a practically unbounded number of candidate terms", qdesc)
+				w.Count("dateq_skipped_blowup", 1)
+				continue
+			}
+			qq := bluge.NewDateRangeInclusiveQuery(st, en, il, ih).SetField("d")
+			got := make([]bool, n)
+			var serr error
+			fin, pan := cq.Guard(20*time.Second, func() {
+				it, err := rd.Search(context.Background(), bluge.NewAllMatches(qq))
+				if err != nil {
+					serr = fmt.Errorf("search: %w", err)
+					return
+				}
+				m, err := it.Next()
+				for err == nil && m != nil {
+					var id string
+					m.VisitStoredFields(func(field string, value []byte) bool {
+						if field == "_id" {
+							id = string(value)
+						}
+						return true
+					})
+					var k int
+					fmt.Sscanf(id, "%d", &k)
+					if got[k] {
+						w.OracleFail("range-dup", "document returned twice", id)
+					}
+					got[k] = true
+					m, err = it.Next()
+				}
+				serr = err
+			})
+			if !fin {
+				w.Abort("range-hang", "date range query did not return within 20s although its term enumeration is small", qdesc)
+			}
+			if pan != nil {
+				w.OracleFail("range-panic", fmt.Sprint(pan), qdesc)
+				continue
+			}
+			if serr != nil {
+				return serr
+			}
+			obs := make([]string, n)
+			nm := 0
+			for i, v := range vals {
+				obs[i] = cq.B(got[i])
+				if got[i] {
+					nm++
+				}
+				// oracle: the property itself — v lies in the interval with the stated inclusivity
+				ge := aOpen || a < v || (il && a == v)
+				le := bOpen || v < bb || (ih && bb == v)
+				w.OracleEval(1)
+				if got[i] != (ge && le) {
+					key := "daterange-exact"
+					switch {
+					case (!aOpen && a == nanosNegInfAlias) || (!bOpen && bb == nanosPosInfAlias):
+						// the end point's float image is an infinity: read as an open end
+						key = "daterange-inf-alias"
+					case v == math.MaxInt64 && ((!aOpen && !il && a == math.MaxInt64) || (bOpen && !ih)):
+						// exclusive ends are min+1 / max-1 on int64: guard at the extreme, open end minus one
+						key = "range-extreme-instant"
+					case v == math.MinInt64 && ((!bOpen && !ih && bb == math.MinInt64) || (aOpen && !il)):
+						key = "range-extreme-instant"
+					}
+					w.OracleFail(key, fmt.Sprintf("doc instant %d ns matched=%v", v, got[i]),
+						map[string]interface{}{"start_ns": a, "start_open": aOpen, "end_ns": bb, "end_open": bOpen, "il": il, "ih": ih, "v": v})
+				}
+			}
+			if q%emitEvery != 0 {
+				continue
+			}
+			loBits, hiBits := uint64(0xfff0000000000000), uint64(0x7ff0000000000000)
+			if !aOpen {
+				loBits = i2fBits(a)
+			}
+			if !bOpen {
+				hiBits = i2fBits(bb)
+			}
+			w.Add(fmt.Sprintf("CDateQ %s %s %s %s %s %s", cq.U(loBits), cq.U(hiBits), cq.B(il), cq.B(ih), cq.ZList(vals), cq.List(obs)),
+				"dateq", nm > 0 && nm < n, qdesc)
 		}
 		rd.Close()
 		wr.Close()
